@@ -366,6 +366,98 @@ def _unroll_literal_loops(tree: ast.AST) -> None:
     ast.fix_missing_locations(tree)
 
 
+def _unflag_loops(tree: ast.AST) -> None:
+    """single-exit loops with a flag back to early exits:
+        flag = False; for ..: .. if c: flag = True; break ..      if flag: T (always leaves)  [else: F]
+    is  for ..: .. if c: T ..   followed by F - provided the flag is bound nowhere else, every `flag = True` is directly followed by
+    a `break` of this loop, and the flag is read only by that test and inside T / F (where it is the literal True / False)."""
+    import copy as _copy
+
+    def always_leaves(block) -> bool:
+        if not block:
+            return False
+        last = block[-1]
+        if isinstance(last, (ast.Return, ast.Raise)):
+            return True
+        if isinstance(last, ast.If):
+            return bool(last.orelse) and always_leaves(last.body) and always_leaves(last.orelse)
+        return False
+
+    class Sub(ast.NodeTransformer):
+        def __init__(self, name, value):
+            self.name, self.value = name, value
+
+        def visit_Name(self, n):
+            if n.id == self.name and isinstance(n.ctx, ast.Load):
+                return ast.copy_location(ast.Constant(value=self.value), n)
+            return n
+
+    def process(fn, block) -> bool:
+        for k in range(len(block) - 1):
+            lp, nxt = block[k], block[k + 1]
+            if not (isinstance(lp, (ast.For, ast.While)) and not lp.orelse and isinstance(nxt, ast.If)):
+                continue
+            t, pos = nxt.test, True
+            if isinstance(t, ast.UnaryOp) and isinstance(t.op, ast.Not):
+                t, pos = t.operand, False
+            if not isinstance(t, ast.Name):
+                continue
+            flag = t.id
+            body_t, body_f = (nxt.body, nxt.orelse) if pos else (nxt.orelse, nxt.body)
+            if not always_leaves(body_t):
+                continue
+            # stores: one `flag = False` before the loop in this block, the rest `flag = True` followed by `break` inside the loop
+            stores = [n for n in ast.walk(fn) if isinstance(n, ast.Name) and n.id == flag and isinstance(n.ctx, ast.Store)]
+            init = [s_ for s_ in block[:k] if isinstance(s_, ast.Assign) and len(s_.targets) == 1 and isinstance(s_.targets[0], ast.Name) and s_.targets[0].id == flag
+                    and isinstance(s_.value, ast.Constant) and s_.value.value is False]
+            if len(init) != 1:
+                continue
+            sites = []
+            good = True
+
+            def scan(blk, in_inner_loop=False):
+                nonlocal good
+                for i_, st in enumerate(blk):
+                    if isinstance(st, ast.Assign) and len(st.targets) == 1 and isinstance(st.targets[0], ast.Name) and st.targets[0].id == flag:
+                        if isinstance(st.value, ast.Constant) and st.value.value is True and not in_inner_loop and i_ + 1 < len(blk) and isinstance(blk[i_ + 1], ast.Break):
+                            sites.append((blk, i_))
+                        else:
+                            good = False
+                    for fld in ("body", "orelse", "finalbody"):
+                        sub = getattr(st, fld, None)
+                        if isinstance(sub, list) and sub and isinstance(sub[0], ast.stmt):
+                            scan(sub, in_inner_loop or isinstance(st, (ast.For, ast.While)))
+                    for h in getattr(st, "handlers", []) or []:
+                        scan(h.body, in_inner_loop)
+            scan(lp.body)
+            if not good or not sites or len(stores) != len(sites) + 1:
+                continue
+            loads = [n for n in ast.walk(fn) if isinstance(n, ast.Name) and n.id == flag and isinstance(n.ctx, ast.Load)]
+            inside = {id(n) for n in ast.walk(nxt) if isinstance(n, ast.Name)}
+            if not all(id(n) in inside for n in loads):
+                continue
+            for blk, i_ in sorted(sites, key=lambda x: -x[1]):
+                new = [Sub(flag, True).visit(_copy.deepcopy(x)) for x in body_t]
+                blk[i_:i_ + 2] = new
+            rest = [Sub(flag, False).visit(_copy.deepcopy(x)) for x in body_f]
+            block[k + 1:k + 2] = rest
+            block.remove(init[0])
+            return True
+        for st in block:
+            for fld in ("body", "orelse", "finalbody"):
+                sub = getattr(st, fld, None)
+                if isinstance(sub, list) and sub and isinstance(sub[0], ast.stmt) and not isinstance(st, (ast.FunctionDef, ast.AsyncFunctionDef, ast.ClassDef)):
+                    if process(fn, sub):
+                        return True
+        return False
+    for fn in ast.walk(tree):
+        if isinstance(fn, (ast.FunctionDef, ast.AsyncFunctionDef)):
+            for _ in range(4):
+                if not process(fn, fn.body):
+                    break
+    ast.fix_missing_locations(tree)
+
+
 def _count_loops(tree: ast.AST) -> None:
     """`for k in itertools.count(s): BODY` is `k = s; while True: BODY; k += 1` with the increment also before every `continue` of
     that loop (the rules read the iteration counter of the solve loop as an explicit counter)."""
@@ -835,6 +927,7 @@ class Program:
                 _splat_literal_tuples(tree)
                 _count_loops(tree)
                 _sink_returns(tree)
+                _unflag_loops(tree)
                 mod = Module(name, path, tree, src)
                 mod.is_pkg = fn == "__init__.py"
                 self.modules[name] = mod
